@@ -379,4 +379,12 @@ VerifyCode(code, pool) ==
 VerifyBC(code, pool) ==
   VerifyCode(code, pool) \cup UNION {VerifyCode(pool[i].code, pool) : i \in {j \in 1..Len(pool) : pool[j].ck = "thunk"}}
 NumInstrs(code) == Cardinality(Boundaries(code, 0, {}))
+\* the jump part of the verification alone, linear in the code (for code at the limit of the 16-bit jump operands,
+\* where the depth analysis above is beyond what TLC evaluates in reasonable time)
+VerifyJumps(code) ==
+  IF ~DecodesCompletely(code) THEN {"decode"}
+  ELSE LET B == Boundaries(code, 0, {})
+           J == {p \in B : InstrAt(code, p).op \in {"OP_JUMP", "OP_IF_TRUE"}} IN
+       (IF \E p \in J : InstrAt(code, p).a <= p THEN {"backward-jump"} ELSE {})
+       \cup (IF \E p \in J : InstrAt(code, p).a > p /\ InstrAt(code, p).a \notin B \cup {Len(code)} THEN {"jump-target"} ELSE {})
 =============================================================================
